@@ -66,6 +66,34 @@ Definition ends_403 (v0 : tval) (t : Z) (cur : list Z) (kind : Z) (p : list pste
 Definition step_403 (idx t : Z) (cur : list Z) (kind : Z) (p : list pstep) (st : Z) (sb : list Z)
                     (err ex : Z) (res : list Z) (flags : Z) : verdict :=
   if is_nil p then VBad 94 [] else
+  if kind =? 5 then
+    (* ReplaceByPath (Node's method, also reached through a Value's embedded node: no descriptor guard).  Callback from
+       flags bits 2-3: 0 returns the node (st, sb) whatever it is given, 1 returns its argument, 2 returns an error node *)
+    let mode := (flags / 4) mod 4 in
+    let cb := if mode =? 1 then CbId else if mode =? 2 then CbErr else CbConst st sb in
+    let internal :=
+      match decode_all t cur with
+      | Some v =>
+          if wf v && (depth v <=? max_skip_depth)%nat then
+            let acb := if mode =? 1 then Some ACId else if mode =? 2 then Some ACErr
+                       else match decode_all st sb with Some x => Some (ACConst x) | None => None end in
+            match acb with
+            | Some a => match replace_by_path t cur p cb, rres_of (ast_replace p a v) with
+                        | ROk b1, ROk b2 => bytes_eqb b1 b2
+                        | RErr e1, RErr e2 => Bool.eqb e1 e2
+                        | _, _ => false
+                        end
+            | None => true
+            end
+          else true
+      | None => true
+      end in
+    if negb internal then VBad 52 [] else
+    match replace_by_path t cur p cb with
+    | ROk b => expect (800 + idx) ((err =? 0) && (ex =? 1) && bytes_eqb res b) [FZ 0; FZ 1; FB b]
+    | RErr e => expect (900 + idx) ((err =? 1) && (ex =? Z.b2z e) && bytes_eqb res cur) [FZ 1; FZ (Z.b2z e); FB cur]
+    end
+  else
   (* Value API through a field the IDL does not declare: the descriptor guard answers before the algorithm runs (set: an error;
      unset consults the descriptor for the parent only); the buffer is unchanged *)
   if Z.testbit flags 0 && negb (Z.testbit flags 1) then
